@@ -132,10 +132,20 @@ package nflog
 
 // decodeState reads length-delimited protobuf records; the codec is outside the verified subset. Assumed (codec axiom):
 // on success the result is a fresh map whose entries are well-formed and stored under their own key.
+//@ uf isEOF(error) bool
 //@ func decodeState
-//@   trusted
-//@   ensures result1 == nil ==> result0 != nil && fresh(result0) && (forall k string :: k in result0 ==> wfEntry(result0[k]) && keyOf(result0[k]) == k && fresh(result0[k]))
-//@   ensures result1 != nil ==> result0 == nil
+//@   props C10 C11
+//@   assumes ErrInvalidState != nil
+//@   ensures [entries-well-formed-and-filed-under-their-key] result1 == nil ==> result0 != nil && fresh(result0) && (forall k string :: k in result0 ==> wfEntry(result0[k]) && keyOf(result0[k]) == k && fresh(result0[k]))
+//@   ensures [error-yields-no-state] result1 != nil ==> result0 == nil
+//@   loop 1 invariant st != nil && fresh(st) && (forall k string :: k in st ==> allocated(st[k]) && wfEntry(st[k]) && keyOf(st[k]) == k && fresh(st[k]))
+//@   at call errors.Is assert [end-of-input-test] arg0 == ret("protodelim.UnmarshalFrom") && arg1 == io.EOF
+//@   after call errors.Is assume res0 == isEOF(arg0)
+//@   ensures [only-a-clean-end-of-input-completes-the-state] result1 == nil ==> called("protodelim.UnmarshalFrom") && isEOF(ret("protodelim.UnmarshalFrom"))
+//@   ensures [any-other-read-error-is-reported] called("protodelim.UnmarshalFrom") && ret("protodelim.UnmarshalFrom") != nil && !isEOF(ret("protodelim.UnmarshalFrom")) ==> result1 != nil
+//@   ensures [a-decoded-entry-is-filed] result1 == nil && countnil0("protodelim.UnmarshalFrom") > 0 ==> len(result0) > 0
+//@   loop 1 invariant countnil0("protodelim.UnmarshalFrom") >= 0 && (countnil0("protodelim.UnmarshalFrom") > 0 ==> len(st) > 0)
+//@   noeffect bufio.NewReader errors.Is
 //@   assigns nothing
 
 // C11/C10: loading a snapshot installs exactly the decoded state (every entry filed under its own key), or nothing
